@@ -158,7 +158,7 @@ def _rebase_cut(ck, p, byk):
             ck.refuted(rule, "cut:" + key, body.loc(bt["ln"]), "push_by is given %s, not the start of the span the inner parser's slice was cut with (%s)" % (off, sorted(span_locals)))
         else:
             ck.proved(rule, "cut:" + key, f.loc(pt["ln"]), "inner slice = cut of `source` by a span; tokens are shifted by that span's start")
-    ck.floor(rule, "span-cut re-basing sites", n, 5)
+    ck.floor(rule, "span-cut re-basing sites", n, 3)
 
 
 def _ref_root(f, pv, l):
@@ -385,7 +385,7 @@ def _condense(ck, p, byk):
             ck.refuted(rule, key, f.loc(rem[0][1]["ln"]), "a feasible path reaches remove_indices with a token index queued for removal (first queued at %s) whose characters no kept token's span has been extended over: those characters fall out of every token" % f.loc(t["ln"]))
         else:
             ck.proved(rule, key, f.span, "%d queue insertions; on every feasible path to remove_indices each is followed by a span extension (%d extension sites)" % (len(pushes), len(ext)))
-    ck.floor(rule, "queue-based condensing passes", n, 4)
+    ck.floor(rule, "queue-based condensing passes", n, 2)
     # condense_indices: the skipped range ends one past the token whose span.end was copied
     fs = byk.get("Document::condense_indices")
     if ck.anchor(rule, "Document::condense_indices", fs):
@@ -467,7 +467,7 @@ def _quotes_last(ck, p, byk):
             later.append((last(g.name), t["ln"]))
     # sanity: the passes before match_quotes are recognised as resizing (the classifier is alive)
     before = [last(p.fns[t["f"]["inst"]].name) for bi, t in f.calls() if t["f"].get("inst") in p.fns and cfg.dominates(bi, qb) and bi != qb and _resizes_tokens(p, p.fns[t["f"]["inst"]], memo)]
-    ck.floor(rule, "token-resizing passes recognised before match_quotes", len(before), 5)
+    ck.floor(rule, "token-resizing passes recognised before match_quotes", len(before), 3)
     if later:
         ck.refuted(rule, "Document::parse:after-match_quotes", f.loc(later[0][1]), "%s runs after match_quotes and can remove or insert tokens: every quote after the edit keeps a twin index that no longer points at its partner" % later[0][0])
     else:
@@ -580,7 +580,7 @@ def _stale(ck, p, byk, rule="R-C02-stale"):
                     detail = "pushed value %s re-bases by exactly the tokens removed before it" % cx.show(lin)
                 ck.ob(rule, key, verdict, f.loc(pt["ln"]), detail)
                 ok_all = ok_all and verdict == "PROVED"
-    ck.floor(rule, "Document methods that remove tokens through an index list", n_methods, 5)
+    ck.floor(rule, "Document methods that remove tokens through an index list", n_methods, 3)
 
 
 def _adjacent(ck, p, byk):
@@ -682,7 +682,7 @@ def _adjacent(ck, p, byk):
                 _nm(names, k_), _nm(names, o_), _nm(names, k_), _nm(names, o_), [(_nm(names, a), _nm(names, b_)) for a, b_, _ in guards]))
         else:
             ck.proved(rule, key, f.span, "%d extension(s), each guarded by the adjacency test on the same two tokens" % len(exts))
-    ck.floor(rule, "cursor-loop condensing passes with a span extension", n, 2)
+    ck.floor(rule, "cursor-loop condensing passes with a span extension", n, 1)
 
 
 def _nm(names, x):
@@ -769,7 +769,7 @@ def stale_use(ck, p, rule):
             ck.refuted(rule, key, f.loc(bad[0]), "self.tokens is addressed after the removal with an index taken from `%s` (created at line %d, filled with plain positions counted before the removal): every token the removal took out in front of it shifts the real position, so from the second hit on the wrong token is read or written" % (bad[1], bad[2]))
         else:
             ck.proved(rule, key, f.span, "%d use(s) of an index into self.tokens after the removal, none taken from a container of pre-removal positions" % len(uses))
-    ck.floor(rule, "Document methods with a removal", n, 4)
+    ck.floor(rule, "Document methods with a removal", n, 2)
 
 
 def names_of(f):
@@ -1047,4 +1047,4 @@ def typst_order(ck, p, rule):
                                 ck.proved(rule, key, f.loc(ln), "%s: %s() before %s() against source order, but Typst::parse sorts the tokens before returning them" % (ti, ai, aj))
                             else:
                                 ck.refuted(rule, key, f.loc(ln), "%s: the tokens of %s() are emitted before those of %s() (%s), but in the source `%s` comes first: the token stream is not in increasing order, and passes that join neighbouring tokens (number + suffix, contractions) build spans with start > end" % (ti, ai, aj, how, aj))
-    ck.floor(rule, "ordered concatenations of AST parts in the Typst translator", n_sites, 6)
+    ck.floor(rule, "ordered concatenations of AST parts in the Typst translator", n_sites, 3)
